@@ -13,6 +13,9 @@ one() {
   s=$1; name=$(basename $s)
   repo=$(mktemp -d /tmp/seedmx-XXXXXX)
   (cd /repo && git archive HEAD) | tar -x -C "$repo"
+  # a seed made on top of a committed behaviour-preserving refactoring names it in meta.json ("base": "refactors4/C07-q"): apply that first
+  b=$(jq -r '.base // empty' "$verif/$s/meta.json" 2>/dev/null)
+  if [ -n "$b" ] && ! (cd "$repo" && patch -p1 -s < "$verif/$b/patch.diff" >/dev/null 2>&1); then echo "| $name | (base $b does not apply to current /repo HEAD) | |"; rm -rf "$repo"; return; fi
   if ! (cd "$repo" && patch -p1 -s < "$verif/$s/patch.diff" >/dev/null 2>&1); then echo "| $name | (patch does not apply to current /repo HEAD) | |"; rm -rf "$repo"; return; fi
   mkdir -p "$repo-verif"; cp "$verif/known_findings.txt" "$repo-verif/" 2>/dev/null
   out=$("$verif/bin/orascheck" -all -tier quick -repo "$repo" -verif "$repo-verif" 2>&1 | grep -E '^(VIOLATED|UNDECIDED|UNRESOLVED-ANCHOR) ' | sed 's/ at .*//' | sort -u | grep -vxF -f "$base/baseline.txt")
